@@ -1011,7 +1011,7 @@ fn verif_build_mini_scenarios()
     goal, edit a source, tamper with / delete a target, reorder the words of a command in the rules file}.  The oracles are the
     model-free ones of the mini scenarios (C01 against the real build() on a fresh file system with the same goal, C02, C05, C07, C08,
     C09 incl. goal scope, C10, C18) plus C04: the number of reported failures is the number of missing leaves and of failing rules
-    that could start.  Bound: VERIF_RANDOM_CASES workspaces x one history of 6 steps each.
+    that could start.  Bound: 150 x n workspaces in the quick tier (n = the history length of the exhaustive part), 6000 in the thorough tier, one history of 6-7 steps each.
     --------------------------------------------------------------------------------------------------------------------------- */
 struct Rng(u64);
 impl Rng
@@ -1236,7 +1236,7 @@ fn run_random(seed: u64, drop_table: bool, names: &[&'static str]) -> (Vec<bool>
 fn verif_build_random()
 {
     std::panic::set_hook(Box::new(|_| {}));
-    let n : u64 = std::env::var("VERIF_RANDOM_CASES").ok().and_then(|s| s.parse().ok()).unwrap_or_else(|| 150 * std::env::var("VERIF_HISTORY_LEN").ok().and_then(|s| s.parse::<u64>().ok()).unwrap_or(4));
+    let n : u64 = std::env::var("VERIF_RANDOM_CASES").ok().and_then(|s| s.parse().ok()).unwrap_or_else(|| { let h = std::env::var("VERIF_HISTORY_LEN").ok().and_then(|s| s.parse::<u64>().ok()).unwrap_or(4); if h >= 5 { 6000 } else { 150 * h } });
     let names = ["B-build-C01", "B-build-C02", "B-build-C04", "B-build-C05", "B-build-C07", "B-build-C08", "B-build-C09", "B-build-C10", "B-build-C18"];
     let mut bad = vec![0u64; names.len()];
     let mut stats = (0usize, 0usize);
